@@ -103,11 +103,11 @@ def cases(tier):
         ed = _edits(b)
         if tier != "quick":
             ed2 = set()
-            for e in ed[::41]:
+            for e in ed[::97]:
                 ed2.update(_edits(e))
             ed = sorted(set(ed) | ed2)
         out.append(dict(name=f"edits of {b}", fn=total, params_list=[dict(shape=s, opts={}) for s in [b] + ed],
                         bounds=f"{b!r} and all its single class-level substitutions, deletions, insertions and truncations"
-                               + (" plus double edits of every 41st" if tier != "quick" else ""),
+                               + (" plus double edits of every 97th" if tier != "quick" else ""),
                         limits=dict(max_paths=10**6)))
     return out
